@@ -103,6 +103,109 @@ def run_cases(args):
     return out
 
 
+DDMIN_HISTORIES = [
+    ('(declare-const a Bool)\n(declare-const b Bool)\n'
+     '(assert (=> (not a) b))\n(check-sat)\n',
+     ['--bool-implications', '--bool-double-negations']),
+    ('(declare-const a Bool)\n(declare-const b Bool)\n'
+     '(assert (not (and (not a) b)))\n(check-sat)\n',
+     ['--bool-de-morgan', '--bool-double-negations']),
+    ('(declare-const a Bool)\n(declare-const b Bool)\n'
+     '(assert (=> (not a) (not (not b))))\n(check-sat)\n',
+     ['--bool-implications', '--bool-double-negations', '--erase-node']),
+]
+
+
+def ddmin_turns(rep, optmap):
+    """Runs with strategy ddmin / hybrid over histories in which a mutator
+    has nothing to do on the original input.  A mutator of the ddmin pass
+    lists that is never applied is a violation if the input at one of its
+    turns (what its successor in the pass list was given, what its
+    predecessor returned) has a node it accepts."""
+    import runs
+    from concurrent.futures import ThreadPoolExecutor
+    mods = ddsmt_env.mods()
+    cfgs = []
+    for text, mo in DDMIN_HISTORIES:
+        for st, j in (('ddmin', 1), ('ddmin', 2), ('hybrid', 1)):
+            cfgs.append((text, ['--strategy', st, '-j', str(j),
+                                '--disable-all'] + mo))
+
+    def run(kc):
+        k, (text, opts) = kc
+        wd = common.subscratch(f'c14-turn{k}')
+        return runs.run_ddsmt(
+            wd, text, {'mode': 'contains',
+                       'markers': ['assert', 'a', 'b', 'check-sat']},
+            opts, timeout=300)
+
+    with ThreadPoolExecutor(6) as ex:
+        res = list(ex.map(run, enumerate(cfgs)))
+    n = 0
+    for (text, opts), rr in zip(cfgs, res):
+        rep.count()
+        dp = [e for e in rr.events if e['ev'] == 'passes'
+              and e['strat'] == 'ddmin']
+        if rr.status != 0 or not dp:
+            continue
+        n += 1
+        stages = dp[0]['passes']
+        applies = []
+        for e in rr.events:
+            if e['ev'] == 'apply_begin':
+                applies.append({'mut': e['mut'], 'in': e.get('toks')})
+            elif e['ev'] == 'apply_end' and applies:
+                applies[-1]['out'] = e.get('toks')
+        applied = {a['mut'] for a in applies}
+        for stage in stages:
+            for pos, m in enumerate(stage):
+                if m in applied:
+                    continue
+                nxt = next((x for x in stage[pos + 1:] if x in applied), None)
+                prv = next((x for x in reversed(stage[:pos])
+                            if x in applied), None)
+                turns = [a['in'] for a in applies if a['mut'] == nxt] + \
+                        [a.get('out') for a in applies if a['mut'] == prv]
+                hit = None
+                for tk in turns:
+                    if tk and accepts_some_node(mods, m, tk):
+                        hit = tk
+                        break
+                if hit:
+                    rep.violation(
+                        f'ddmin-mutator-never-applied:{m}:{" ".join(opts)}',
+                        f'{m} is in the ddmin pass list {stage} but was never '
+                        f'applied, although the input at its turn '
+                        f'{" ".join(hit)!r} has a node it accepts; options '
+                        f'{opts}', {'input': text, 'opts': opts})
+    return n
+
+
+def accepts_some_node(mods, clsname, toks):
+    nodeio, nodes, smtlib = mods['nodeio'], mods['nodes'], mods['smtlib']
+    try:
+        exprs = list(nodeio.parse_smtlib(' '.join(toks)))
+        smtlib.collect_information(exprs)
+        inst = None
+        for tname, (module, names) in \
+                mods['mutators'].get_all_mutators().items():
+            if clsname in names:
+                inst = getattr(module, clsname)()
+        if inst is None:
+            return False
+        for node in nodes.dfs(exprs):
+            try:
+                if not hasattr(inst, 'filter') or inst.filter(node):
+                    if hasattr(inst, 'mutations') and \
+                            list(inst.mutations(node)):
+                        return True
+            except Exception:  # noqa
+                continue
+    except Exception:  # noqa
+        return False
+    return False
+
+
 def main():
     a = common.std_args()
     ddsmt_env.load()
@@ -160,6 +263,13 @@ def main():
         for g in rest:
             ds = DECLS[g]
             lines.append(ds[k % len(ds)])
+        # where the declarations stand: before the first assertion, after it
+        # (an input is a sequence of commands, declarations may follow
+        # assertions), or after a first check-sat
+        if k % 5 == 1:
+            lines[2:2] = ['(assert plain)']
+        elif k % 5 == 3:
+            lines[2:2] = ['(assert plain)', '(check-sat)']
         lines.append('(assert plain)')
         return '\n'.join(lines) + '\n'
 
@@ -261,6 +371,10 @@ def main():
         tl.append({k2: c2[k2] for k2 in ('cid', 'seq', 'decl', 'hier_all',
                                          'hier_last', 'ddmin')})
     rep.cov['real_hybrid_runs'] = nreal
+    # every mutator of the ddmin pass lists gets its turn: a history in which
+    # a mutator only applies after another one has rewritten the input
+    nd = ddmin_turns(rep, optmap)
+    rep.cov['ddmin_runs_judged_for_turns'] = nd
     # TLC judges
     import conform  # noqa
     path = os.path.join(common.subscratch('c14'), 'cases.json')
